@@ -230,6 +230,8 @@ def narrow_parameter_copy_stream(ctx):
 
 def explore(ctx):
     mixed_dtype_stream(ctx)
+    from . import compute_common as cc_
+    cc_.rounding_tie(ctx, 400 if ctx.quick else 4000, 'c20_rounding')
     big_integer_copy_stream(ctx)
     narrow_parameter_copy_stream(ctx)
     rng = ctx.rng('c20')
